@@ -173,7 +173,7 @@ def run(prog: Program, res: Result, tier: str) -> None:
         (res.ok if ok else res.bad)("R3", g, g.node if g else tmpl.node, f"gen_{k}: reference bin {'at the start' if k == 'boxcar' else 'at the peak (centre of a symmetric support)'}"
                                     if ok else f"gen_{k}: reference bin definition changed", construct=f"gen_{k}", key=f"gen:{k}")
     # ---- R1 (cont.) the standardisation the filter is fed with (shared with C15.R1) ------------------------------------
-    depends(res, "R1", prog, tier, "C15", accept=lambda o: (o.key or "").startswith("zscore:"),
+    depends(res, "R1", prog, tier, "C15", accept=lambda o: (o.key or "").startswith(("zscore:", "estimator:")),
             why="MatchedFilter correlates estimate_zscore(data, loc_method, scale_method): C15's rules for that function are re-evaluated here")
     res.floor("R1", 8)
     res.floor("R2", 10)
